@@ -111,6 +111,16 @@ def _program(draw):
                  "default_open": g["default_open"], "cache": True}
             labels.add("cached_route_gate" + ("_multi" if multi else ""))
         gates.append(g)
+    for g in gates:
+        if g.get("cache") and prob(draw, 0.3):
+            # a cached gate that also emits an ordering signal, with a (non-target) waiter: a hit must re-produce the signal
+            tg = {g.get("t"), g.get("f"), *g.get("targets", [])}
+            cands_w = [i for i, n in enumerate(nodes) if n["k"] == "func" and n["name"] not in tg and not n.get("wait_for")]
+            if cands_w:
+                wi = draw(st.sampled_from(cands_w))
+                g["emit"] = ["gsig_" + g["name"]]
+                nodes[wi] = {**nodes[wi], "wait_for": ["gsig_" + g["name"]]}
+                labels.add("cached_gate_emits")
     if len(gates) == 2 and all(x["k"] == "ifelse" for x in gates) and prob(draw, 0.6):
         # second gate shares the first gate's routing function (same params/table), different targets
         g0, g1 = gates
